@@ -35,6 +35,7 @@ static void do_line (char *line) {
   ctx = MIR_init ();
   MIR_set_error_func (ctx, prog_err_func);
   MIR_gen_init (ctx);
+  trace_generator ();
   MIR_gen_set_optimize_level (ctx, atoi (w[2]));
   if (getenv ("C03_GENDEBUG") != NULL) { /* developer aid */
     MIR_gen_set_debug_file (ctx, stderr);
